@@ -128,7 +128,7 @@ func (m *Machine) interpreted(fn *ssa.Function) bool {
 	if p == "" {
 		return true // synthetic wrappers without a package
 	}
-	return strings.HasPrefix(p, RepoModule) || strings.HasPrefix(p, "zzgen/") || isInterpretedStd(p)
+	return strings.HasPrefix(p, RepoModule) || isEmittedPkg(p) || isInterpretedStd(p)
 }
 
 func (m *Machine) lookupFunc(name string) *ssa.Function {
@@ -301,3 +301,8 @@ func (i *interpreter) panicText(v value) string {
 	return fmt.Sprint(v)
 }
 
+
+// isEmittedPkg: import paths of materialised (stage-2) packages.
+func isEmittedPkg(p string) bool {
+	return strings.HasPrefix(p, "zzgen/") || strings.HasPrefix(p, "zzreplay/")
+}
